@@ -91,11 +91,28 @@ def ggswEncryptCompressed (bits b n size kxe rank dnum dsize : Nat) (pt : Poly) 
 def storedCell (cells : List (Nat × CellC)) (i : Nat) : Option CellC :=
   (cells.find? (fun c => c.1 == i)).map (·.2)
 
-/-- **`GGLWEToGGSWKeyCompressed` encryption as it is**: sub-key `i` is encrypted with the `i`-th
-branch of `Source::new(seed_xa)` as its seed — but through a borrowed view whose seed vector is a
-clone (`GGLWECompressed::to_mut` clones `seed`), so the seeds written by
-`gglwe_compressed_encrypt_sk` are lost and the stored seeds stay as allocated (all zero). -/
-def g2gStoredSeeds (cells : List (Nat × CellC)) : List (Nat × CellC) :=
-  cells.map (fun c => (c.1, { c.2 with seed := [0, 0, 0, 0] }))
+/-- **`GGLWEToGGSWKeyCompressedEncryptSk::gglwe_to_ggsw_key_encrypt_sk`** (two levels of `branch()`): for
+`i` in `0..rank` the top source `Source::new(seed_xa)` is branched once, and sub-key `i` is
+`gglwe_compressed_encrypt_sk(res.at_mut(i), [s_i·s_0 … s_i·s_{rank-1}], sk, seed_i, …)`, i.e. its own
+cells branch `Source::new(seed_i)`; the error source runs on across the sub-keys.  `pts[i]` = the
+plaintext columns of sub-key `i`.  Since the repair the per-cell seeds are copied from the borrowed
+view into the object, so the stored sub-keys are exactly what `gglweEncryptCompressed` returns. -/
+def g2gLoop (bits b n size kxe rank dnum dsize : Nat) (sk : List Poly) (expand : List Nat → List Nat) :
+    List (List Poly) → List Nat → List Poly → Option (List (List (Nat × CellC)))
+  | [], _, _ => some []
+  | pti :: rest, top, es =>
+    match Sampling.newSeed top with
+    | none => none
+    | some (seedI, top') =>
+      match gglweEncryptCompressed bits b n size kxe rank rank dnum dsize pti sk expand seedI es with
+      | none => none
+      | some cells =>
+        match g2gLoop bits b n size kxe rank dnum dsize sk expand rest top' (es.drop cells.length) with
+        | none => none
+        | some out => some (cells :: out)
+
+def g2gEncryptCompressed (bits b n size kxe rank dnum dsize : Nat) (pts : List (List Poly)) (sk : List Poly)
+    (expand : List Nat → List Nat) (seedXa : List Nat) (es : List Poly) : Option (List (List (Nat × CellC))) :=
+  g2gLoop bits b n size kxe rank dnum dsize sk expand pts (expand seedXa) es
 
 end Core
